@@ -19,7 +19,7 @@ reg("C06",
     name="C06_intern", src="harness/C06_intern.cpp",
     anchor_files=["src/hgraph/types/graph_wiring.cpp", "include/hgraph/types/graph_wiring.h", "include/hgraph/types/static_node.h",
                   "include/hgraph/types/wired_fn.h", "src/hgraph/runtime/node.cpp"],
-    quick=dict(defs=dict(NX=2, DMAX=3, WMAX=5, SMAX=2), symx=dict(shards=16, **{"max-wall": 900})),
+    quick=dict(defs=dict(NX=2, DMAX=3, WMAX=5, SMAX=1), symx=dict(shards=16, **{"max-wall": 900})),
     thorough=dict(defs=dict(NX=3, DMAX=3, WMAX=6, SMAX=3), symx=dict(shards=16, **{"max-wall": 3000, "shard-depth": 8})),
     reach=["end", "scale_nodes_shared", "same_input_different_scalar_distinct", "different_input_distinct", "sinks_ticked", "resolved_types_both_ticked"],
     bounds="one graph: definition Scale wired twice with inputs p, q enumerated in {A, B} and scalars s1, s2 symbolic in [0,SMAX] (flowing through "
